@@ -168,7 +168,8 @@ def history(ctx):
                 missing = [b for b in before if not api.disj([a == b for a in after if len(a) == len(b)])]
                 multi = " [units in front of the faulty unit of a multi-unit source]" if op == "i4" else ""
                 ctx.check(len(extra) == 0, "a failed parse leaves symbol tables of its own behind [%s ends in %s]%s" % (op, r[0], multi))
-                toplevel_same = op in ("i0", "i1", "i2", "i4", "i5") or op[0] == "v" or TOPSAME.get(op, False)
+                # the recorded finding needs equal unit names: only histories that reuse the name
+                toplevel_same = bool(p["same"]) and (op in ("i0", "i1", "i2", "i4", "i5") or op[0] == "v" or TOPSAME.get(op, False))
                 ctx.check(len(missing) == 0, "a failed parse removes a symbol table that existed before it" +
                           (" [unit name equal to that of an earlier parse]" if toplevel_same else " [only a nested unit shares the name]"))
                 # bring the state back so that later steps are judged on their own
